@@ -619,7 +619,7 @@ def expandAccent (T : PTables) : Nat → Buf → Tok → M (List Tok × Buf)
       if blank then
         let nm := strJoin [' '] names
         match T.unicodeNames.find? (·.1 == nm) with
-        | some u => pure ({ kind := .text, pos := tok.pos, txt := u.2, fix := tok.fix } :: rest, a.2)
+        | some u => pure ({ kind := .text, pos := tok.pos, txt := u.2, fix := tok.fix || decide (1 < u.2.length) } :: rest, a.2)
         | none => do
           let er ← latexError T.toTables ("could not find UTF-8 character \"".toList ++ nm ++ ['"']) tok.pos
           pure (er, a.2)
@@ -639,7 +639,7 @@ def expandAccent (T : PTables) : Nat → Buf → Tok → M (List Tok × Buf)
               let nm := "LATIN ".toList ++ (if lower then "SMALL".toList else "CAPITAL".toList)
                           ++ " LETTER ".toList ++ [up] ++ " WITH ".toList ++ n0
               match T.unicodeNames.find? (·.1 == nm) with
-              | some u => pure ({ kind := .text, pos := tok.pos, txt := u.2, fix := tok.fix } :: rest, a.2)
+              | some u => pure ({ kind := .text, pos := tok.pos, txt := u.2, fix := tok.fix || decide (1 < u.2.length) } :: rest, a.2)
               | none => do
                 let er ← latexError T.toTables ("could not find UTF-8 character \"".toList ++ nm ++ ['"']) tok.pos
                 pure (er, a.2)
